@@ -173,7 +173,8 @@ func (rt *runtime) newError(name string, message Value, stackFramesToPop int) *o
 
 	obj := rt.newErrorObject(name, message, stackFramesToPop)
 	obj.prototype = rt.global.ErrorPrototype
-	if name != "" {
+	if name != "" && name != classErrorName {
+		// Error instances inherit their name from Error.prototype; only a custom name needs an own property.
 		obj.defineProperty("name", stringValue(name), 0o101, false)
 	}
 	return obj
